@@ -339,3 +339,33 @@ def run_identity(prog, rep):
     if n < 12:
         raise AnalysisBroken('R-IDENT: only %d stores found' % n)
     return rule
+
+
+def run_lookup_via(prog, rep):
+    """backend getters that take one text (a name or an id) resolve it through the shared name-first helpers"""
+    rule = rep.rule('R-LOOKUP-VIA', 'a backend lookup by one text argument (name or id) goes through findGroupByNameOrAttribute / findDataByNameOrAttribute (name first, R-NAMEFIRST); no such function searches by attribute only', floor=6)
+    sem = Sem(prog)
+    n = 0
+    for f in sorted(prog.funcs.values(), key=lambda f: (f.file, f.line)):
+        if f.body is None or not f.q.startswith('nix::hdf5::') or f.cls == 'nix::hdf5::H5Group':
+            continue
+        sp = [p for p in f.params if 'string' in p['type'] and 'vector' not in p['type']]
+        if not sp:
+            continue
+        fl = None
+        for c in f.calls():
+            nm = c.callee.get('name')
+            if nm not in ('findGroupByAttribute', 'findDataByAttribute', 'findGroupByNameOrAttribute', 'findDataByNameOrAttribute'):
+                continue
+            a = [x for x in real_args(c) if x is not None]
+            fl = fl or Flow(sem, f)
+            org = fl.origins(unwrap(a[-1]))
+            if not any(o[0] == 'param' and o[1] in [p['name'] for p in sp] for o in org):
+                continue
+            n += 1
+            key = '%s%s|%s' % (f.q, f.sig, nm)
+            rule.check(nm.endswith('NameOrAttribute'), key, rep.where(c), f.label(), 'resolved name first, id as fall-back',
+                       'the text argument is looked up with %s only: a child whose name has the shape of an id (legal) is not found under its name, index access and every search built on it skip it' % nm)
+    if n < 6:
+        raise AnalysisBroken('R-LOOKUP-VIA: only %d text lookups found' % n)
+    return rule
